@@ -36,7 +36,7 @@ ThmAscending == Ascending(EncodeRoot(Doc, <<>>, EO))
 Emit == (DoEmit /\ Len(hist) = MaxHist) =>
    PrintT(ToJson([f |-> "det", hist |-> hist, x |-> Join(RenderCompact(EncodeRoot(Doc, <<>>, EO), EO)),
                   j |-> Join(JsonOf(Doc, FALSE)), js |-> Join(JsonOf(Doc, TRUE))]))
-cKeys == {<<"-", "a">>, <<"b">>, <<"c">>, <<"b", "b">>}
-cVals == {VS(<<"x">>), VS(<<"<", "&">>), VM((<<"-", "z">> :> VS(<<"1">>)) @@ (<<"y">> :> VL(<<VS(<<"2">>), VS(<<>>)>>)))}
-cValsQ == {VS(<<"<", "&">>), VM((<<"-", "z">> :> VS(<<"1">>)) @@ (<<"y">> :> VL(<<VS(<<"2">>), VS(<<>>)>>)))}
+cKeys == {<<"-", "a">>, <<"-", "d">>, <<"b">>, <<"c">>, <<"b", "b">>}
+cVals == {VS(<<>>), VS(<<"x">>), VS(<<"<", "&">>), VM((<<"-", "z">> :> VS(<<"1">>)) @@ (<<"y">> :> VL(<<VS(<<"2">>), VS(<<>>)>>)))}
+cValsQ == {VS(<<>>), VS(<<"<", "&">>), VM((<<"-", "z">> :> VS(<<"1">>)) @@ (<<"y">> :> VL(<<VS(<<"2">>), VS(<<>>)>>)))}
 =============================================================================
